@@ -34,6 +34,9 @@ template<typename T, typename W, typename H, typename E, typename A>
 const uint8_t frequent_items_sketch<T, W, H, E, A>::LG_MIN_MAP_SIZE;
 
 template<typename T, typename W, typename H, typename E, typename A>
+const uint8_t frequent_items_sketch<T, W, H, E, A>::LG_MAX_MAP_SIZE;
+
+template<typename T, typename W, typename H, typename E, typename A>
 frequent_items_sketch<T, W, H, E, A>::frequent_items_sketch(uint8_t lg_max_map_size, uint8_t lg_start_map_size,
     const E& equal, const A& allocator):
 total_weight(0),
@@ -300,6 +303,7 @@ frequent_items_sketch<T, W, H, E, A> frequent_items_sketch<T, W, H, E, A>::deser
   const auto lg_cur_size = read<uint8_t>(is);
   const auto flags_byte = read<uint8_t>(is);
   read<uint16_t>(is); // unused
+  if (!is.good()) throw std::runtime_error("error reading from std::istream");
 
   const bool is_empty = (flags_byte & (1 << flags::IS_EMPTY_1)) | (flags_byte & (1 << flags::IS_EMPTY_2));
 
@@ -314,6 +318,8 @@ frequent_items_sketch<T, W, H, E, A> frequent_items_sketch<T, W, H, E, A>::deser
     read<uint32_t>(is); // unused
     const auto total_weight = read<W>(is);
     const auto offset = read<W>(is);
+    if (!is.good()) throw std::runtime_error("error reading from std::istream");
+    check_num_items(num_items, lg_cur_size);
 
     // batch deserialization with intermediate array of items and weights
     using AllocW = typename std::allocator_traits<A>::template rebind_alloc<W>;
@@ -373,11 +379,12 @@ frequent_items_sketch<T, W, H, E, A> frequent_items_sketch<T, W, H, E, A>::deser
     W offset;
     ptr += copy_from_mem(ptr, offset);
 
+    check_num_items(num_items, lg_cur_size);
     ensure_minimum_memory(size, ptr - base + (sizeof(W) * num_items));
     // batch deserialization with intermediate array of items and weights
     using AllocW = typename std::allocator_traits<A>::template rebind_alloc<W>;
     std::vector<W, AllocW> weights(num_items, 0, allocator);
-    ptr += copy_from_mem(ptr, weights.data(), sizeof(W) * num_items);
+    if (num_items > 0) ptr += copy_from_mem(ptr, weights.data(), sizeof(W) * num_items);
     A alloc(allocator);
     std::unique_ptr<T, items_deleter> items(alloc.allocate(num_items), items_deleter(num_items, false, alloc));
     const size_t bytes_remaining = size - (ptr - base);
@@ -427,6 +434,18 @@ void frequent_items_sketch<T, W, H, E, A>::check_size(uint8_t lg_cur_size, uint8
   }
   if (lg_cur_size < LG_MIN_MAP_SIZE) {
     throw std::invalid_argument("Possible corruption: lg_cur_size must not be less than " + std::to_string(LG_MIN_MAP_SIZE) + ": " + std::to_string(lg_cur_size));
+  }
+  // the hash map and get_epsilon() compute 1 << lg_size in int
+  if (lg_max_size > LG_MAX_MAP_SIZE) {
+    throw std::invalid_argument("Possible corruption: lg_max_size must not be greater than " + std::to_string(LG_MAX_MAP_SIZE) + ": " + std::to_string(lg_max_size));
+  }
+}
+
+template<typename T, typename W, typename H, typename E, typename A>
+void frequent_items_sketch<T, W, H, E, A>::check_num_items(uint32_t num_items, uint8_t lg_cur_size) {
+  // a map of 2^lg_cur_size slots holds at most 2^lg_cur_size active items
+  if (num_items > (static_cast<uint64_t>(1) << lg_cur_size)) {
+    throw std::invalid_argument("Possible corruption: num_items " + std::to_string(num_items) + " exceeds the map size 2^" + std::to_string(lg_cur_size));
   }
 }
 
